@@ -104,7 +104,7 @@ func mergeKeys(inputChan <-chan keyBatchEvent, outputChan chan<- keyBatchEvent, 
 
 	states := make(map[string]stateMerge, settings.batchSize)
 	for batch := range inputChan {
-		var err error
+		err := batch.err // a failed key page is forwarded, not dropped: the listing must not look complete
 		filtered := make([]string, 0, len(batch.keys))
 		for _, key := range batch.keys {
 			apc, erp := model.GetArchivePathComponents(key)
@@ -148,7 +148,7 @@ func versionedKeys(vstore storage.VersionedStore, inputChan <-chan keyBatchEvent
 	}()
 
 	for batch := range inputChan {
-		var err error
+		err := batch.err // a failed key page is forwarded, not dropped: the listing must not look complete
 		expanded := make([]string, 0, len(batch.keys)*10)
 		for _, key := range batch.keys {
 			versions, erv := vstore.KeyVersions(context.Background(), key)
